@@ -102,26 +102,42 @@ class Runner:
     """runs the queries of one case on the real Calendar; collects observations and oracle violations"""
     def __init__(self, case, cal=None):
         self.case = case
-        self.cal = cal if cal is not None else Calendar(key=None, holidays=[D(h) for h in case['hol']], weekend=list(case['wk']),
-                            t0=D(case['t0']), t1=D(case['t1']), adj=case['adj'])
+        f = case.get('forms') or {}
+        self.tod = datetime.timedelta(microseconds=f.get('tod', 0)); self.ts = bool(f.get('ts'))
+        if cal is None:
+            wk = list(case['wk']); wf = f.get('wkform', 'list')
+            wk_py = None if wf == 'none' else wk[0] if wf == 'int' else tuple(wk) if wf == 'tuple' else wk
+            hol_py = f.get('hol_py', case['hol'])
+            kw = dict(holidays=None if (f.get('holnone') and not hol_py) else [D(h) for h in hol_py], weekend=wk_py, adj=f.get('adjsp', case['adj']))
+            if not case.get('default_range'):
+                kw.update(t0=D(case['t0']), t1=D(case['t1']))
+            cal = Calendar(key=None, **kw)
+        self.cal = cal
         self.o = Oracle(case)
         self.viol = None
+    def DT(self, d):
+        """the query date in the case's input form: midnight datetime / datetime with a time of day / pandas Timestamp"""
+        t = D(d) + self.tod
+        if self.ts:
+            import pandas as pd
+            t = pd.Timestamp(t)
+        return t
     def bad(self, msg):
         if self.viol is None:
             c = self.case
             self.viol = '%s  [Calendar t0=%s t1=%s weekend=%s adj=%s, %d holidays]' % (msg, D(c['t0']).date(), D(c['t1']).date(), c['wk'], c['adj'], len(c['hol']))
     def q_isb(self, d):
-        r = bool(self.cal.is_bday(D(d)))
+        r = bool(self.cal.is_bday(self.DT(d)))
         if self.o.a <= d <= self.o.b and r != self.o.isb(d):
             self.bad('is_bday(%s) = %s but the day is%s a weekend day or holiday' % (D(d).date(), r, '' if not self.o.isb(d) else ' not'))
         return r
     def q_ish(self, d):
-        r = bool(self.cal.is_holiday(D(d)))
+        r = bool(self.cal.is_holiday(self.DT(d)))
         if self.o.a <= d <= self.o.b and r == self.o.isb(d):
             self.bad('is_holiday(%s) = %s contradicts weekend/holiday membership' % (D(d).date(), r))
         return r
     def q_adj(self, a, d):
-        st, r = call(self.cal.adjust, D(d), a)
+        st, r = call(self.cal.adjust, self.DT(d), a)
         if st != 'ok':
             return ['ERR', st]
         r = _ord(r)
@@ -136,10 +152,10 @@ class Runner:
     def add_raw(self, a, d, n):
         """('ok', ordinal) | (errname, None) | ('OutOfFuel', None) when the call would not return"""
         if n == 0:
-            st, s = call(self.cal.adjust, D(d), a)
+            st, s = call(self.cal.adjust, self.DT(d), a)
             if st == 'ok' and self.cal.is_holiday(s):
                 return 'OutOfFuel', None
-        st, r = call(self.cal.add, D(d), n, a)
+        st, r = call(self.cal.add, self.DT(d), n, a)
         return (st, _ord(r)) if st == 'ok' else (st, None)
     def q_add(self, a, d, n, laws=True):
         st, r = self.add_raw(a, d, n)
@@ -155,7 +171,7 @@ class Runner:
                 elif r != e:
                     self.bad('add(%s, %d, %r) = %s; counting %d business days from %s gives %s' % (D(d).date(), n, a, D(r).date(), n, D(s).date(), D(e).date()))
                 elif laws and self.viol is None and self.o.inside(e):
-                    s2, b = call(self.cal.bdays, D(d), D(r), a)
+                    s2, b = call(self.cal.bdays, self.DT(d), self.DT(r), a)
                     if s2 != 'ok' or b != n:
                         self.bad('bdays(%s, add(%s, %d)) = %s, expected %d' % (D(d).date(), D(d).date(), n, b if s2 == 'ok' else s2, n))
                     if self.o.isb(d):
@@ -169,7 +185,7 @@ class Runner:
                             self.bad('add(%s, 2) = %s but add(add(%s, 1), 1) = %s' % (D(d).date(), D(r).date(), D(d).date(), D(r2).date() if s5 == 'ok' else s5))
         return r if st == 'ok' else ['ERR', st]
     def q_bd(self, a, x, y):
-        st, r = call(self.cal.bdays, D(x), D(y), a)
+        st, r = call(self.cal.bdays, self.DT(x), self.DT(y), a)
         ea = eff_adj(a, self.case['adj'])
         sx, sy = self.o.adjust(x, ea), self.o.adjust(y, ea)
         if sx is not None and sy is not None:
@@ -178,7 +194,7 @@ class Runner:
                 self.bad('bdays(%s, %s, %r) = %s; counting day by day between the adjusted dates %s and %s gives %d' % (D(x).date(), D(y).date(), a, r if st == 'ok' else st, D(sx).date(), D(sy).date(), e))
         return int(r) if st == 'ok' else ['ERR', st]
     def q_dr(self, x, y):
-        st, r = call(self.cal.drange, D(x), D(y), '1b')
+        st, r = call(self.cal.drange, self.DT(x), self.DT(y), '1b')
         obs = [_ord(t) for t in r] if st == 'ok' else ['ERR', st]
         sx, sy = self.o.adjust(x, self.case['adj']), self.o.adjust(y, self.case['adj'])
         if sx is not None and sy is not None:
@@ -188,8 +204,46 @@ class Runner:
                     D(x).date(), D(y).date(), ('%d days %s' % (len(obs), [str(D(t).date()) for t in obs[:4]])) if st == 'ok' else st,
                     D(sx).date(), D(sy).date(), len(e), [str(D(t).date()) for t in e[:3]], [str(D(t).date()) for t in e[-2:]]))
         return obs
+    def q_clk(self, d):
+        st, r = call(self.cal.clock, self.DT(d))
+        s = self.o.adjust(d, self.case['adj'])
+        if s is not None:
+            e = sum(1 for x in range(self.o.a, s) if self.o.isb(x))
+            if st != 'ok' or r != e:
+                self.bad('clock(%s) = %s; there are %d business days from the start of the calendar up to the adjusted date %s' % (D(d).date(), r if st == 'ok' else st, e, D(s).date()))
+        return int(r) if st == 'ok' else ['ERR', st]
+    def q_bump(self, a, d, toks):
+        """dt_bump(d, '<n>b<n>b...', adj): each token is add(., n, adj); the literal '+0b' / '-0b' first adjusts following / previous"""
+        text = ''.join(('+0b' if z == 1 else '-0b' if z == -1 else '%db' % n) for n, z in toks)
+        hang = False
+        t = d; ea = eff_adj(a, self.case['adj']); exp = d
+        for n, z in toks:        # expected chain by day-by-day counting; None as soon as a stage leaves the calendar
+            if exp is None: break
+            if z: exp = self.o.adjust(exp, 'f' if z == 1 else 'p')
+            s = self.o.adjust(exp, ea) if exp is not None else None
+            exp = self.o.nth(s, n) if s is not None else None
+            if exp is not None and not self.o.inside(exp): exp = None
+        # the code's own unbounded loop (n = 0 from a holiday outside the calendar) is not executed
+        cur = self.DT(d)
+        for n, z in toks:
+            st0, c1 = call(self.cal.adjust, cur, 'f' if z == 1 else 'p') if z else ('ok', cur)
+            if st0 != 'ok': break
+            if n == 0:
+                st0, s0 = call(self.cal.adjust, c1, a)
+                if st0 == 'ok' and self.cal.is_holiday(s0): hang = True; break
+            st0, cur = call(self.cal.add, c1, n, a)
+            if st0 != 'ok': break
+        if hang:
+            return ['ERR', 'OutOfFuel']
+        st, r = call(self.cal.dt_bump, self.DT(d), text, a)
+        if st == 'ok': r = _ord(r)
+        if exp is not None and (st != 'ok' or r != exp):
+            self.bad('dt_bump(%s, %r, %r) = %s; counting business days token by token gives %s' % (D(d).date(), text, a, D(r).date() if st == 'ok' else st, D(exp).date()))
+        return r if st == 'ok' else ['ERR', st]
     def run(self, q):
         k = q[0]
+        if k == 'clk': return self.q_clk(q[1])
+        if k == 'bump': return self.q_bump(q[1], q[2], q[3])
         if k == 'isb': return self.q_isb(q[1])
         if k == 'ish': return self.q_ish(q[1])
         if k == 'adj': return self.q_adj(q[1], q[2])
@@ -204,6 +258,12 @@ class Runner:
 def cal_obs(c):
     return [sorted(_ord(h) for h in c.holidays), [int(w) for w in c.weekend], _ord(c.t0), _ord(c.t1)]
 
+KEYFORMS = {'str': lambda k: 'c05key%d' % k, 'int': lambda k: 1000 + k, 'tuple': lambda k: ('C05', k), 'none': lambda k: None if k == 0 else 'c05key%d' % k,
+            'upper': lambda k: ['US', 'us', 'Us'][k % 3]}
+def reg_key(case, k):
+    """the Python key object for key index k: strings, ints, tuples, None, strings differing only by case"""
+    return KEYFORMS[case.get('keyform', 'str')](k)
+
 def norm_ops(ops):
     """registry ops: ['call', k, h, w, a, b] | ['obj', k, h, w, a, b] | ['q', k, query]; old corpus form [k, h, w, a, b] = call"""
     return [(['call'] + list(o)) if isinstance(o[0], int) else list(o) for o in ops]
@@ -215,7 +275,7 @@ def impl_registry(case):
     DEFAULT = [[], [5, 6], TMIN_ORD, TMAX_ORD]
     for i, op in enumerate(norm_ops(case['ops'])):
         kind, k = op[0], op[1]
-        key = 'c05key%d' % k
+        key = reg_key(case, k)
         if kind == 'q':
             c = calendar(key)
             if k not in last: last[k] = list(DEFAULT)
@@ -276,6 +336,8 @@ def coq_q(q):
     if k == 'bd': return 'QBdays %s (%d) (%d)' % (coq_a(q[1]), q[2], q[3])
     if k == 'dr': return 'QDrange (%d) (%d)' % (q[1], q[2])
     if k == 'sw': return 'QSweep %s (%d)' % (coq_a(q[1]), q[2])
+    if k == 'clk': return 'QClock (%d)' % q[1]
+    if k == 'bump': return 'QBump %s (%d) [%s]' % (coq_a(q[1]), q[2], '; '.join('((%d), (%d))' % (n, z) for n, z in q[3]))
     raise ValueError(k)
 def opt(x, f):
     return 'None' if x is None else '(Some %s)' % f(x)
@@ -354,6 +416,19 @@ def gen_calendar(rng, dens, wkname, adj, tier, span=None):
         r = rng.random()
         if r < 0.5: return None
         return rng.choice(SPELL[rng.choice('fpm')]) if r < 0.8 else rng.choice(SPELL[adj])
+    # input forms (Python side only; the model sees the canonical calendar): time of day / sub-second part on query dates,
+    # pandas Timestamps, weekend as None / int / tuple, holidays unsorted with duplicates or None, spelled constructor adj
+    forms = {}
+    r = rng.random()
+    if r < 0.35: forms['tod'] = rng.choice([1, 999999, 43200000000, 86399999999, rng.randrange(1, 86400000000)])
+    if rng.random() < 0.2: forms['ts'] = True
+    wk = WEEKENDS[wkname]
+    forms['wkform'] = rng.choice(['list', 'tuple'] + (['none'] if wk == [5, 6] else []) + (['int'] if len(wk) == 1 else []))
+    if hol and rng.random() < 0.5:
+        hp = hol + [rng.choice(hol) for _ in range(rng.randrange(0, 4))]; rng.shuffle(hp); forms['hol_py'] = hp
+    if not hol and rng.random() < 0.5: forms['holnone'] = True
+    if rng.random() < 0.3: forms['adjsp'] = rng.choice(SPELL[adj])
+    case['forms'] = forms
     q = case['q']
     nsweep, nday = (8, 24) if tier == 'quick' else (0, 40)
     if tier != 'quick':
@@ -370,10 +445,36 @@ def gen_calendar(rng, dens, wkname, adj, tier, span=None):
     for _ in range(12):
         x = day(); y = rng.choice([day(), x + rng.randrange(-30, 31), x])
         q.append(['bd', spell(), x, y])
+    for _ in range(8):
+        q.append(['clk', day()])
+    for _ in range(10):          # Calendar.dt_bump with strings of b-periods (incl. the literals '+0b' / '-0b' and compound strings)
+        r = rng.random()
+        tok = lambda: rng.choice([(0, 1), (0, -1), (0, 0), (rng.randrange(NLO, NHI + 1), 0), (rng.choice([1, -1, 2, -2, 3, -5]), 0)])
+        toks = [tok()] if r < 0.6 else [tok(), tok()] if r < 0.9 else [tok(), tok(), tok()]
+        q.append(['bump', spell(), day(), [list(t) for t in toks]])
     for _ in range(3):
         x = day(); y = rng.choice([x + rng.randrange(0, 45), x - rng.randrange(0, 10), day() if span <= 400 or tier != 'quick' else x + rng.randrange(0, 200)])
         q.append(['dr', x, y])
     return case
+
+def gen_default_range(rng):
+    """Calendar(key=None, holidays, weekend) with t0 = t1 = None: TMIN 1900-01-01 .. TMAX 2300-01-01 (146098 days). Checked by the oracle
+    only ('nomodel': the Coq table of 146098 days is not evaluated); queries in the past, the future and at both ends of the range"""
+    wkname = rng.choice(list(WEEKENDS)); adj = rng.choice('fpm')
+    centres = [TMIN_ORD + rng.randrange(0, 30), TMAX_ORD - rng.randrange(0, 30), datetime.date(rng.randrange(1901, 2299), rng.randrange(1, 13), 15).toordinal(),
+               datetime.date(rng.randrange(2027, 2299), 12, 28).toordinal()]
+    H = set()
+    for c in centres:
+        for _ in range(6): H.add(c + rng.randrange(-25, 26))
+        H.update(range(c, c + rng.randrange(1, 5)))
+    H = sorted(h for h in H if TMIN_ORD - 3 <= h <= TMAX_ORD + 3)
+    q = []
+    for c in centres:
+        for _ in range(3):
+            d = min(max(c + rng.randrange(-12, 13), TMIN_ORD), TMAX_ORD)
+            q += [['sw', rng.choice([None, 'f', 'p', 'm']), d], ['clk', d], ['bd', None, d, min(TMAX_ORD, d + rng.randrange(0, 40))], ['dr', d, min(TMAX_ORD, d + rng.randrange(0, 20))]]
+    return {'kind': 'cal', 't0': TMIN_ORD, 't1': TMAX_ORD, 'hol': H, 'wk': WEEKENDS[wkname], 'adj': adj, 'dens': 'default-range', 'wkname': wkname,
+            'default_range': True, 'nomodel': True, 'forms': {}, 'q': q}
 
 def gen_registry(rng):
     """calls only (reads, overwrites, default ranges): the registered arguments"""
@@ -389,7 +490,7 @@ def gen_registry(rng):
         a = base - rng.randrange(0, 50) if rng.random() < 0.4 else None
         b = base + 400 + rng.randrange(0, 50) if rng.random() < 0.4 else None
         ops.append(['call', k, h, w, a, b])
-    return {'kind': 'reg', 'ops': ops}
+    return {'kind': 'reg', 'ops': ops, 'keyform': rng.choice(list(KEYFORMS))}
 
 def gen_registry_tables(rng):
     """every history interleaves table-path queries (add +-2..+-5, bdays, drange '1b': they force _populate on the registered object)
@@ -425,7 +526,7 @@ def gen_registry_tables(rng):
         old = cur[k]
         r = rng.random()
         if r < 0.15:
-            ops.append(['call', k, None, None, None, None]); hot = old[0]
+            ops.append([rng.choice(['call', 'obj']), k, None, None, None, None]); hot = old[0]     # plain fetch / calendar(calendar(key)) re-registers the same object
         else:
             H = holidays(old[0])
             hot = sorted(set(H) ^ set(old[0])) or H
@@ -439,7 +540,7 @@ def gen_registry_tables(rng):
         if rng.random() < 0.3: ops.append(['call', k, None, None, None, None])
     for k in range(nkeys):      # after the last registration
         burst(k, cur[k][0])
-    return {'kind': 'reg', 'ops': ops}
+    return {'kind': 'reg', 'ops': ops, 'keyform': rng.choice(list(KEYFORMS))}
 
 def gen_cases(rng, tier):
     cases = []
@@ -452,6 +553,8 @@ def gen_cases(rng, tier):
                     if tier != 'quick' and rng.random() < 0.6:
                         span = rng.choice([365, 366, 380, 400])
                     cases.append(gen_calendar(rng, dens, wkname, adj, tier, span))
+    for _ in range(2 if tier == 'quick' else 12):
+        cases.append(gen_default_range(rng))
     for _ in range(30 if tier == 'quick' else 150):
         cases.append(gen_registry(rng))
     for _ in range(60 if tier == 'quick' else 400):
@@ -497,4 +600,4 @@ def shrink(case):
             lo, hi = min(days) - 70, max(days) + 70
             near = [h for h in case['hol'] if lo <= h <= hi]
             if len(near) < len(case['hol']):
-                yield dict(case, hol=near)
+                yield dict(case, hol=near, forms={k: v for k, v in (case.get('forms') or {}).items() if k != 'hol_py'})
